@@ -1331,7 +1331,10 @@ func (c *Compat) ScanType(ctx context.Context, cursor uint64, match string, coun
 	if count > 0 {
 		cmd = cmd.Args("COUNT", strconv.FormatInt(count, 10))
 	}
-	resp := c.client.Do(ctx, cmd.Args("TYPE", keyType).ReadOnly())
+	if keyType != "" {
+		cmd = cmd.Args("TYPE", keyType)
+	}
+	resp := c.client.Do(ctx, cmd.ReadOnly())
 	return newScanCmd(resp)
 }
 
